@@ -221,6 +221,41 @@ def run_typebatch(a):
         g.cleanup()
 
 
+def run_inplace(a):
+    """files written over a previous, LONGER generation in the same directory must still parse (both directions of a mode
+    switch, shrinking projects): a file is what is on disk after the run, not what the run meant to write"""
+    cli, idx, seed = a
+    from .. import compound
+    rnd = random.Random(seed)
+    big = compound.gen(rnd, idx, nfiles=3, ntypes=8, ncmds=9, nevents=3)
+    small = {}
+    keep = rnd.random()
+    for pth, items in big.items():
+        small[pth] = [it for it in items if rnd.random() < 0.35]
+    if not any(it.kind == "command" for items in small.values() for it in items):
+        first = next(it for items in big.values() for it in items if it.kind == "command")
+        small[next(iter(small))].append(first)
+    root = common.scratch("c01i")
+    faults = []
+    try:
+        steps = [(big, "zod"), (small, "none"), (big, "none"), (small, "zod"), (small, "none")]
+        rnd.shuffle(steps)
+        steps = [(big, "zod")] + steps
+        for k, (files, mode) in enumerate(steps):
+            src = "src%d" % k
+            g = proj.generate(cli, compound.render(files), mode=mode, root=root, src_name=src, out_name="out", force=True)
+            if g.run.rc != 0:
+                continue
+            out = __import__("vh.tsmod", fromlist=["Output"]).Output(g.out)
+            for e in out.errors():
+                faults.append(("%s after regenerating in place (step %d: %s project, %s mode)" % (e["file"], k, "large" if files is big else "small", mode),
+                               "%s:%d %s near %r | %s" % (e["file"], e["line"], e["msg"], e["token"], e["text"][:80]), e["file"]))
+                break
+        return {"faults": faults, "files": [[p2, t2] for p2, t2 in compound.render(big)]}
+    finally:
+        common.rmtree(root)
+
+
 def run(tier):
     v = Verdict("C01", "exploration", tier)
     cli = common.build_cli()
@@ -281,6 +316,12 @@ def run(tier):
                 continue
             seen.add(sig)
             v.violation(sig, "%s mode: %s" % (job[2], detail), proj.witness_of(c05.build_batch(job[1][:1]), job[2], extra={"note": "first type of the batch shown; see detail line"}))
+    ijobs = [(cli, i, common.seed() * 1009 + i) for i in range(24 if tier == "quick" else 300)]
+    for (job, r) in zip(ijobs, common.pmap(run_inplace, ijobs)):
+        v.case(("in-place", job[2]), nontrivial=True)
+        v.count("in_place_regeneration_histories")
+        for (what, detail, f) in r["faults"][:1]:
+            v.violation("C01 regenerated-in-place %s" % f, what + ": " + detail, {"files": r["files"], "note": "large/small projects and both modes written alternately into one output directory"})
     v.extra["positions_x_classes_covered"] = len(covered)
     rule = ("a case is (position, name class, concrete text, mode) for atomic probes or (type expression, mode) for the type batches; "
             "non-trivial = not the 'plain' control class / constructor depth >= 1; distinct by the tuple")
